@@ -299,7 +299,7 @@ def r_entry_sibling(ck: Checker) -> None:
         ck.holds("R-ENTRY-SIBLING", f, f.node, what, ladder_steps=len(lv))
     else:
         diff = next((i for i, (a, b) in enumerate(zip(lv, lf)) if a != b), min(len(lv), len(lf)))
-        ck.violation("R-ENTRY-SIBLING", f, f.node, what,
+        ck.violation("R-ENTRY-SIBLING", f, f.node, what, also=(v,),
                      construct=f"entry points differ at try block {diff}: validate_pattern {lv[diff] if diff < len(lv) else None} vs from_pattern {lf[diff] if diff < len(lf) else None}")
     m = ck.repo.func(PAT, "MultiPatternMatcher.__init__")
     cs = [c for c in walk_body(m.node.body) if isinstance(c, ast.Call) and dotted(c.func) in ("NodeMatcher.from_pattern",)]
@@ -412,6 +412,40 @@ def r_gram_exh(ck: Checker) -> None:
     if n < 7:
         ck.incomplete("R-GRAM-EXH", None, None, f"only {n} grammar rules (7 expected)")
 
+
+
+def r_every_subtree_visited(ck: Checker) -> None:
+    """Compiling a sub-pattern is not a pure function of its parse tree: visiting it registers the capture names it contains, and that
+    registration is what rejects a capture name used twice / a variable used before its capture.  Positive pattern: a callback of the
+    interpreter looks its parse tree up in a table kept on the interpreter (lark trees compare structurally) — an equal sub-pattern met
+    later is answered from the table and never visited."""
+    c = ck.repo.cls(PAT, "PatternDefInterpreter")
+    n = 0
+    for st in c.node.body:
+        if not isinstance(st, ast.FunctionDef) or st.name.startswith("__"):
+            continue
+        params = [a.arg for a in st.args.args if a.arg != "self"]
+        if not params:
+            continue
+        n += 1
+        t = params[0]
+        hit = None
+        for x in ast.walk(st):
+            if isinstance(x, ast.Call) and isinstance(x.func, ast.Attribute) and x.func.attr in ("get", "setdefault", "__contains__") and norm(x.func.value).startswith("self.") \
+                    and x.args and norm(x.args[0]) == t:
+                hit = x
+            elif isinstance(x, ast.Subscript) and isinstance(x.ctx, ast.Load) and norm(x.value).startswith("self.") and norm(x.slice) == t:
+                hit = x
+            elif isinstance(x, ast.Compare) and len(x.ops) == 1 and isinstance(x.ops[0], (ast.In, ast.NotIn)) and norm(x.left) == t and norm(x.comparators[0]).startswith("self."):
+                hit = x
+        what = f"PatternDefInterpreter.{st.name}: every occurrence of a sub-pattern is visited (its captures are registered where they occur)"
+        if hit is not None:
+            ck.violation("R-VAR-ORDER", (c.mod.rel, f"PatternDefInterpreter.{st.name}"), hit, what, positive=True,
+                         construct=f"PatternDefInterpreter.{st.name}: {norm(hit)[:50]} answers an equal parse tree from a table — the second copy of a sub-pattern is not visited and its capture names escape the duplicate check")
+        else:
+            ck.holds("R-VAR-ORDER", (c.mod.rel, f"PatternDefInterpreter.{st.name}"), st, what)
+    if n < 4:
+        ck.incomplete("R-VAR-ORDER", None, None, f"only {n} callbacks of the pattern interpreter found (>= 4 confirmed by hand)")
 
 
 def r_var_order(ck: Checker) -> None:
@@ -603,6 +637,7 @@ def run(ck: Checker) -> None:
     ck.guard("R-ENTRY-SIBLING", lambda: r_entry_sibling(ck))
     ck.guard("R-GRAM-EXH", lambda: r_gram_exh(ck))
     ck.guard("R-VAR-ORDER", lambda: r_var_order(ck))
+    ck.guard("R-VAR-ORDER", lambda: r_every_subtree_visited(ck))
     ck.guard("R-GRAM-EXH", lambda: r_unquote(ck))
     ck.guard("R-XP-ELEMENTS", lambda: r_reusable(ck))
     from . import state_rules as S
